@@ -39,21 +39,26 @@ def load_known():
     return findings
 
 
-def add_canary(unit_src_path, out_path):
-    """Clone of a unit in which every //@fn contract gets `ensures false`."""
-    # canaries are produced by the extractor hook below (see canary_unit)
-    raise NotImplementedError
-
-
 class CanaryExtractor(extract.Extractor):
-    """Extractor variant that appends `false` to the ensures of every function
-    verified in the unit (vacuity guard: each such function must then FAIL,
-    which shows its requires is satisfiable and its body's end reachable)."""
+    """Extractor variant for the vacuity guard: every function verified in the
+    unit is emitted twice - once unchanged and once as `<fn>__canary` with
+    `false` appended to its ensures.  Each canary copy must FAIL, which shows
+    that the requires is satisfiable and the end of the body reachable.  (The
+    originals keep their real contracts, so a caller's canary cannot pass just
+    because its callee's contract was falsified.)  Trait-impl methods (`nopub`)
+    cannot be duplicated and are skipped."""
+
+    def __init__(self, *a, **k):
+        super().__init__(*a, **k)
+        self.canaries = []
 
     def emit_fn(self, unit_rel, unit_line, st, block, assume):
+        super().emit_fn(unit_rel, unit_line, st, block, assume)
         if assume:
-            return super().emit_fn(unit_rel, unit_line, st, block, assume)
-        # split contract region
+            return
+        pos, opts = self.parse_opts(st, 1)
+        if 'nopub' in pos[2:]:
+            return
         idx = len(block)
         for k, (ln, l) in enumerate(block):
             if l.strip().startswith('//@'):
@@ -62,11 +67,7 @@ class CanaryExtractor(extract.Extractor):
         contract = block[:idx]
         rest = block[idx:]
         has_ens = any(re.match(r'\s*ensures\b', l) for (_, l) in contract)
-        # ensure previous clause ends with a comma
         new = list(contract)
-        k = len(new) - 1
-        while k >= 0 and (new[k][1].strip() == '' or new[k][1].strip().startswith('//')):
-            k -= 1
         dec_at = None
         for q, (_, l) in enumerate(new):
             if re.match(r'\s*decreases\b', l):
@@ -80,12 +81,18 @@ class CanaryExtractor(extract.Extractor):
             code = l.split('//')[0].rstrip()
             if code and not code.endswith(',') and not re.match(r'\s*(requires|ensures)\s*$', code):
                 new[j] = (ln, code + ',')
-        line_no = unit_line
         if has_ens:
-            new.insert(ins, (line_no, '        false, // [vacuity-canary]'))
+            new.insert(ins, (unit_line, '        false, // [vacuity-canary]'))
         else:
-            new.insert(ins, (line_no, '    ensures false, // [vacuity-canary]'))
-        return super().emit_fn(unit_rel, unit_line, st, new + rest, assume)
+            new.insert(ins, (unit_line, '    ensures false, // [vacuity-canary]'))
+        name = opts.get('as', pos[1])
+        cname = name + '__canary'
+        st2 = re.sub(r'\s+as=\S+', '', st) + ' as=' + cname
+        nfun = len(self.functions)
+        super().emit_fn(unit_rel, unit_line, st2, new + rest, assume)
+        # do not list the copy as a function under contract
+        del self.functions[nfun:]
+        self.canaries.append(cname)
 
 
 def run_canary(unit, workdir):
@@ -116,8 +123,7 @@ def run_canary(unit, workdir):
         return None, 'canary: verus gave no per-function results: ' + p.stderr[-800:], 0
     vacuous = []
     n = 0
-    for m in ex.functions:
-        name = m['emitted_as']
+    for name in ex.canaries:
         if name in fnres:
             n += 1
             if fnres[name]:
